@@ -52,6 +52,96 @@ theorem sqlite_delete_outside_transaction_loses_prev :
     let stmtsOld : List (SqlStmt Nat) := [.ddl, .delete, .commit, .insert 2, .commit]
     (sqlRun ⟨[1], none⟩ stmtsOld (some 3)).committed = [] := by decide
 
+/-! ### the transaction discipline, for any body
+
+The four-statement enumeration above is one instance of a general fact: as long as nothing between the start of the save and its final `commit`
+commits, a failure ANYWHERE - at any statement, however many statements the body has, however often a failing statement is tried again before
+the save gives up (a "sticky" failure: `harness/props/c06.py` fails the same statement every time it is executed) - rolls back to the previous
+table.  A body that commits in the middle (`executescript` after the `DELETE`, as in `sqlite_delete_outside_transaction_loses_prev`) is exactly
+what the hypothesis excludes. -/
+
+def SqlStmt.isCommit {R : Type} : SqlStmt R → Bool
+  | .commit => true
+  | .script => true
+  | _ => false
+
+/-- statements before the transaction: they change no row, and with nothing pending a script's implicit commit commits nothing -/
+def SqlStmt.isPreamble {R : Type} : SqlStmt R → Bool
+  | .ddl => true
+  | .script => true
+  | _ => false
+
+theorem sqlStep_committed_of_not_commit {R : Type} (db : Db R) (st : SqlStmt R) (h : st.isCommit = false) :
+    (sqlStep db st).committed = db.committed := by
+  cases st <;> first | rfl | (simp [SqlStmt.isCommit] at h)
+
+theorem foldl_committed_of_no_commit {R : Type} (stmts : List (SqlStmt R)) (db : Db R) (h : ∀ st ∈ stmts, st.isCommit = false) :
+    (stmts.foldl sqlStep db).committed = db.committed := by
+  induction stmts generalizing db with
+  | nil => rfl
+  | cons st rest ih =>
+    rw [List.foldl_cons, ih _ (fun x hx => h x (List.mem_cons_of_mem _ hx)), sqlStep_committed_of_not_commit db st (h st List.mem_cons_self)]
+
+theorem foldl_preamble {R : Type} (pre : List (SqlStmt R)) (prev : List R) (h : ∀ st ∈ pre, st.isPreamble = true) :
+    pre.foldl sqlStep ⟨prev, none⟩ = ⟨prev, none⟩ := by
+  induction pre with
+  | nil => rfl
+  | cons st rest ih =>
+    have hst := h st List.mem_cons_self
+    have hstep : sqlStep ⟨prev, none⟩ st = ⟨prev, none⟩ := by
+      cases st <;> first | rfl | (simp [SqlStmt.isPreamble] at hst)
+    rw [List.foldl_cons, hstep]
+    exact ih (fun x hx => h x (List.mem_cons_of_mem _ hx))
+
+/-- **atomicity of the save for any body.**  A preamble outside any transaction, statements that do not commit, then `commit`: a failure at any
+index (of the preamble, of the body or at the commit itself) leaves the previous table. -/
+theorem sqlite_transaction_atomic {R : Type} (prev : List R) (pre body : List (SqlStmt R)) (hpre : ∀ st ∈ pre, st.isPreamble = true)
+    (h : ∀ st ∈ body, st.isCommit = false) (i : Nat) (hi : i ≤ pre.length + body.length) :
+    (sqlRun ⟨prev, none⟩ (pre ++ body ++ [.commit]) (some i)).committed = prev ∧
+    (sqlRun ⟨prev, none⟩ (pre ++ body ++ [.commit]) (some i)).pending = none := by
+  refine ⟨?_, rfl⟩
+  unfold sqlRun
+  dsimp only
+  have hmin : min i (pre ++ body ++ [SqlStmt.commit]).length = i := by
+    simp only [List.length_append, List.length_singleton]; omega
+  have hle : i ≤ (pre ++ body).length := by rw [List.length_append]; exact hi
+  rw [hmin, List.take_append_of_le_length hle, List.take_append, List.foldl_append, foldl_preamble _ prev (fun st hst => hpre st (List.mem_of_mem_take hst))]
+  exact foldl_committed_of_no_commit _ _ (fun st hst => h st (List.mem_of_mem_take hst))
+
+/-- ... and without failure the same body installs what its statements built -/
+theorem sqlite_transaction_commits {R : Type} (prev : List R) (body : List (SqlStmt R)) :
+    (sqlRun ⟨prev, none⟩ (body ++ [.commit]) none).pending = none := by
+  unfold sqlRun
+  dsimp only
+  rw [List.take_length, List.foldl_append]
+  rfl
+
+/-- the save of the code under test is such a sequence; so is the same save with its INSERT tried `k + 1` times -/
+theorem sqlite_save_with_retries_atomic {R : Type} (prev : List R) (row : R) (k i : Nat) (hi : i ≤ 2 + (1 + (k + 1))) :
+    (sqlRun ⟨prev, none⟩ ([.ddl, .script] ++ ([.delete] ++ List.replicate (k + 1) (.insert row)) ++ [.commit]) (some i)).committed = prev := by
+  refine (sqlite_transaction_atomic prev [.ddl, .script] _ ?_ ?_ i ?_).1
+  · intro st hst
+    simp only [List.mem_cons, List.not_mem_nil, or_false] at hst
+    rcases hst with rfl | rfl <;> rfl
+  · intro st hst
+    rcases List.mem_append.mp hst with h | h
+    · simp only [List.mem_cons, List.not_mem_nil, or_false] at h
+      rw [h]; rfl
+    · rw [List.eq_of_mem_replicate h]; rfl
+  · simp only [List.length_append, List.length_cons, List.length_nil, List.length_replicate]; omega
+
+example : sqlSaveStmts (7 : Nat) = [.ddl, .script] ++ ([.delete] ++ List.replicate 1 (.insert 7)) ++ [.commit] := rfl
+
+/-- what the harness sends is what the model's save is: the codes of the statements observed on the real save -/
+example : sqlOfCodes (7 : Nat) [0, 4, 1, 2, 3] = sqlSaveStmts 7 := rfl
+
+/-- the wave-12 seeded change in the model: the retry path runs a committing script between the failed and the repeated INSERT; with a failure that
+persists, the previous checkpoint is gone (`commit` in the body: the hypothesis of `sqlite_transaction_atomic` fails) -/
+theorem sqlite_retry_through_committing_script_loses_prev :
+    -- PRAGMA, DDL script, DELETE, (the INSERT that raised is not executed,) DROP, DDL script again, INSERT again - which fails too
+    let stmts : List (SqlStmt Nat) := [.ddl, .script, .delete, .delete, .script, .insert 2, .commit]
+    (sqlRun ⟨[1], none⟩ stmts (some 5)).committed = [] ∧ ¬ (∀ st ∈ (stmts.drop 2).dropLast, st.isCommit = false) := by decide
+
 /-! ## JSON / CSV / HDF5 -/
 
 /-- **partial statement (what does hold).**  A folder left by a crash is restored as an error, as the previous
